@@ -15,9 +15,18 @@ package sqlite
 //@   ensures @mac ? result1 ==> bytes(mac1) == digest(absorbed(hash)) && len(result0) == 16 && u(result0) == u(id)
 //@   ensures @nomac !result1 ==> len(result0) == 0
 
+// the token secret lives in the database only: it is (inserted if absent and then)
+// read back from the secrets table on every use and nothing is cached in the DB
+// object, so tokens issued by one instance verify on every other instance of the file
 //@ func sqlite.DB.loadOrStoreSecret
-//@   nopaths
+//@   props C18 C08 C10(sweep)
+//@   sweep bounds,panic,make,nilmem
 //@   modifies nothing
+//@   assume dbread(db) != True()
+//@   callsites insertOrIgnore 1
+//@   callsites query 1
+//@   callassert query#1: @inserted dbinserted(db) == True()
+//@   ensures @fromdb err == nil ==> dbread(db) == True()
 
 // ---- accessors: no session, no state (C18, C08) ----------------------------------------------
 //@ func sqlite.DB.TO0SignNonce
@@ -69,6 +78,15 @@ package sqlite
 //@   callassert Unmarshal#1: @stored exp.Valid && !isnil(blob)
 //@   ensures @both err == nil ==> result0 != nil && result1 != nil
 
+// the expiry is stored in the unit RVBlob reads it in (Unix seconds of the given time)
+//@ func sqlite.DB.SetRVBlob
+//@   props C18 C07 C10(sweep)
+//@   sweep bounds,panic,make,nilmem
+//@   callsites Unix 1
+//@   callsites insert 1
+//@   callassert Unix#1: @ofexp u(arg0) == u(exp)
+//@   callassert insert#1: @table arg2 == "rv_blobs"
+
 // ---- voucher replacement: add first, remove second, compensate (C18, C03) -----------
 //@ func sqlite.DB.ReplaceVoucher
 //@   props C18 C03 C10(sweep)
@@ -96,6 +114,12 @@ package sqlite
 //@ func sqlite.DB.query
 //@   nopaths
 //@   modifies into
+//@   ghostset dbread(db) := True()
+//@ func sqlite.DB.insertOrIgnore
+//@   nopaths
+//@   modifies nothing
+//@   ghostset dbinserted(db) := True()
+//@ spec ghost dbread, dbinserted
 //@ func sqlite.DB.insert
 //@   nopaths
 //@   modifies nothing
